@@ -1076,6 +1076,7 @@ class SMTPClient(basic.LineReceiver, policies.TimeoutMixin):
 
     def smtpState_data(self, code, resp):
         s = basic.FileSender()
+        self._bodyAtLineStart = True
         d = s.beginFileTransfer(self.getMailData(), self.transport, self.transformChunk)
 
         def ebTransfer(err):
@@ -1100,6 +1101,8 @@ class SMTPClient(basic.LineReceiver, policies.TimeoutMixin):
     ##
     ## Helpers for FileSender
     ##
+    _bodyAtLineStart = True
+
     def transformChunk(self, chunk):
         """
         Perform the necessary local to network newline conversion and escape
@@ -1109,7 +1112,14 @@ class SMTPClient(basic.LineReceiver, policies.TimeoutMixin):
         being made sending the message body, the client will not time out.
         """
         self.resetTimeout()
-        return chunk.replace(b"\n", b"\r\n").replace(b"\r\n.", b"\r\n..")
+        transformed = chunk.replace(b"\n", b"\r\n").replace(b"\r\n.", b"\r\n..")
+        # A period is also "leading" when it is the first byte of the message
+        # body, or the first byte of a chunk that follows the end of a line.
+        if self._bodyAtLineStart and transformed.startswith(b"."):
+            transformed = b"." + transformed
+        if chunk:
+            self._bodyAtLineStart = chunk.endswith(b"\n")
+        return transformed
 
     def finishedFileTransfer(self, lastsent):
         if lastsent != b"\n":
